@@ -110,6 +110,14 @@ def deserBigDecimal (lim : Nat) (b : Bytes) : Except Err (Int × Int) :=
     | .error e => .error e
     | .ok (scale, _) => .ok (fromSignedBE mag, scale)
 
+/-- one map entry: the key is decoded as a `string`, then the value. -/
+def decEntryWith (lim : Nat) (f : Reader Value) : Reader (Bytes × Value) :=
+  fun b => match decString lim b with
+    | .error e => .error e
+    | .ok (k, r) => match f r with
+      | .ok (v, r') => .ok ((k, v), r')
+      | .error e => .error e
+
 /-- `decode_internal`. -/
 def decode (cfg : Cfg) (env : Names) : Nat → Schema → Reader Value
   | 0, _, _ => .error .fuel
@@ -181,11 +189,7 @@ def decode (cfg : Cfg) (env : Names) : Nat → Schema → Reader Value
       | .ok (items, r) => .ok (.array items, r)
       | .error e => .error e
     | .map inner =>
-      match mapLoop cfg (fun b => match decString cfg.lim b with
-                          | .error e => .error e
-                          | .ok (k, r) => match decode cfg env fuel inner r with
-                            | .ok (v, r') => .ok ((k, v), r')
-                            | .error e => .error e) (bs.length + 1) [] bs with
+      match mapLoop cfg (decEntryWith cfg.lim (decode cfg env fuel inner)) (bs.length + 1) [] bs with
       | .ok (es, r) => .ok (.map es, r)
       | .error e => .error e
     | .union branches =>
